@@ -5,7 +5,12 @@
 package main
 
 import (
+	"context"
 	"database/sql"
+	"database/sql/driver"
+	"regexp"
+	"sync"
+	"time"
 	"encoding/json"
 	"flag"
 	"fmt"
@@ -17,7 +22,9 @@ import (
 	"sort"
 	"strings"
 
+	sqlite3 "github.com/mattn/go-sqlite3"
 	"github.com/prometheus/client_golang/prometheus"
+	"github.com/resonatehq/resonate/internal/app/subsystems/aio/store/postgres"
 	"github.com/resonatehq/resonate/internal/app/subsystems/aio/store/sqlite"
 	"github.com/resonatehq/resonate/internal/kernel/bus"
 	"github.com/resonatehq/resonate/internal/kernel/t_aio"
@@ -33,11 +40,58 @@ import (
 
 type M = map[string]any
 
+type processor interface {
+	Process([]*bus.SQE[t_aio.Submission, t_aio.Completion]) []*bus.CQE[t_aio.Submission, t_aio.Completion]
+}
+
 type impl struct {
 	path  string
-	store *sqlite.SqliteStore
+	store processor
 	rdb   *sql.DB
 }
+
+// -pgshim: the implementation under test is the REAL postgres.go worker (Execute, performCommands, every handler and the
+// Postgres SQL text), run over a database/sql shim that rewrites $N placeholders to ?N and strips ::casts and hands the
+// statements to sqlite (tables created from the sqlite schema, whose column names and types the Postgres statements use).
+// No Postgres server exists in the sandbox; everything but the three Postgres-only statements (jsonb containment in the two
+// searches, DISTINCT ON in the enqueueable select) means the same to both engines.
+var pgshim bool
+var pgPlaceholder = regexp.MustCompile(`\$(\d+)`)
+var pgCast = regexp.MustCompile(`::[a-z]+`)
+
+func pgToSqlite(q string) string {
+	return pgPlaceholder.ReplaceAllString(pgCast.ReplaceAllString(q, ""), "?$1")
+}
+
+type pgshimDriver struct{ inner sqlite3.SQLiteDriver }
+
+func (d *pgshimDriver) Open(name string) (driver.Conn, error) {
+	c, err := d.inner.Open(name)
+	if err != nil {
+		return nil, err
+	}
+	return &pgshimConn{c.(*sqlite3.SQLiteConn)}, nil
+}
+
+type pgshimConn struct{ c *sqlite3.SQLiteConn }
+
+func (c *pgshimConn) Prepare(q string) (driver.Stmt, error) { return c.c.Prepare(pgToSqlite(q)) }
+func (c *pgshimConn) Close() error                          { return c.c.Close() }
+func (c *pgshimConn) Begin() (driver.Tx, error)             { return c.c.Begin() } //nolint:staticcheck
+func (c *pgshimConn) BeginTx(ctx context.Context, o driver.TxOptions) (driver.Tx, error) {
+	return c.c.BeginTx(ctx, o)
+}
+func (c *pgshimConn) PrepareContext(ctx context.Context, q string) (driver.Stmt, error) {
+	return c.c.PrepareContext(ctx, pgToSqlite(q))
+}
+func (c *pgshimConn) ExecContext(ctx context.Context, q string, a []driver.NamedValue) (driver.Result, error) {
+	return c.c.ExecContext(ctx, pgToSqlite(q), a)
+}
+func (c *pgshimConn) QueryContext(ctx context.Context, q string, a []driver.NamedValue) (driver.Rows, error) {
+	return c.c.QueryContext(ctx, pgToSqlite(q), a)
+}
+
+var pgshimOnce sync.Once
 
 func newImpl(dir string, n int) (*impl, error) {
 	path := filepath.Join(dir, fmt.Sprintf("store-%d.db", n))
@@ -50,9 +104,21 @@ func newImpl(dir string, n int) (*impl, error) {
 		return nil, err
 	}
 	boot.Close()
-	st, err := sqlite.New(nil, metrics.New(prometheus.NewRegistry()), &sqlite.Config{Size: 10, BatchSize: 10, Path: path, TxTimeout: 10e9})
-	if err != nil {
-		return nil, err
+	var st processor
+	if pgshim {
+		pgshimOnce.Do(func() { sql.Register("pgshim", &pgshimDriver{}) })
+		db, err := sql.Open("pgshim", path)
+		if err != nil {
+			return nil, err
+		}
+		db.SetMaxOpenConns(1)
+		st = postgres.NewVerifWorker(db, 10*time.Second)
+	} else {
+		sst, err := sqlite.New(nil, metrics.New(prometheus.NewRegistry()), &sqlite.Config{Size: 10, BatchSize: 10, Path: path, TxTimeout: 10e9})
+		if err != nil {
+			return nil, err
+		}
+		st = sst
 	}
 	rdb, err := sql.Open("sqlite3", path)
 	if err != nil {
@@ -417,7 +483,20 @@ func main() {
 	out := flag.String("out", "", "summary JSON path")
 	dialect := flag.String("dialect", "sqlite", "which generated definitions the MODEL uses (pg: Postgres definitions against the real sqlite store, inside DialectSafe)")
 	mon := flag.String("monitor", "", "comma-separated property ids whose monitors run on the implementation dumps")
+	flag.BoolVar(&pgshim, "pgshim", false, "run the real postgres.go worker over a $N->?N shim on sqlite (model: Postgres definitions)")
 	flag.Parse()
+	if pgshim {
+		*dialect = "pg"
+		if *kinds == "" {
+			ks := []string{}
+			for _, k := range canon.KindNames() {
+				if k != "SearchPromises" && k != "SearchSchedules" && k != "ReadEnqueueableTasks" {
+					ks = append(ks, k)
+				}
+			}
+			*kinds = strings.Join(ks, ",")
+		}
+	}
 	modelDialect = *dialect
 	if *dialect == "pg" {
 		gen.DialectSafe()
